@@ -269,6 +269,7 @@ Proof.
   change (6 =? 6) with true. cbv beta iota.
   unfold decode_slc. rewrite read_size_ok by exact Hf.
   rewrite exceeds_false by (try exact Hs; try exact Hz; lia).
+  replace (1 + lenN more =? 0) with false by (symmetry; apply N.eqb_neq; lia). cbv beta iota.
   rewrite sr_u8_cons.
   destruct more as [|m0 mt].
   - change (lenN (@nil N)) with 0. change (1 <? 1 + 0) with false. cbv beta iota. cbn [s_err app].
